@@ -917,7 +917,8 @@ def instrRowOk (id : Nat) : Bool :=
     b < 256 && b != 0xFC && b != 0xFD &&
     (match T.reverz1 b with | some id' => id' == id | none => false) &&
     (!(b == 0x1C) || (match T.reverz1 0x1B with | some id' => id' == id | none => false)) &&
-    (!(kinds.contains .resultTypes) || (b == 0x1C && kinds == [.resultTypes]))
+    (!(kinds.contains .resultTypes) || (b == 0x1C && kinds == [.resultTypes])) &&
+    (!(b == 0x1C) || kinds == [.resultTypes])
   | some (p, some s), some kinds =>
     (p == 0xFC || p == 0xFD) && s < T.maxSub &&
     (match T.reverz2 p s with | some id' => id' == id | none => false) &&
